@@ -107,6 +107,11 @@ func (d *dynRunner) apply(op *Op) *Resp {
 			arg = foldChoice(op.Arg, len(d.last.Opts))
 		}
 		prevKind := d.last.Kind
+		if trackActive {
+			saved := activeHost
+			activeHost = d.h
+			defer func() { activeHost = saved }()
+		}
 		r := d.h.Next(arg)
 		settle(d.bubble)
 		if d.h.releaseAuto() {
